@@ -193,6 +193,12 @@ var verif_ghost struct {
 	gGetLastStore *NomsBlockStore // the generation the most recent read was made on
 	gGetGhost     bool            // the ghost generation has been read
 
+	// generational single presence check (GenerationalNBS.Has)
+	gHasCount     int             // presence checks made so far
+	gHasLast      bool            // the most recent answer
+	gHasLastStore *NomsBlockStore // the generation it was made on
+	gHasGhost     bool            // the ghost generation has been asked
+
 	// generational batched reads (GetMany / getManyCompressed): the sets of still-missing addresses
 	gCopyLast hash.HashSet // the most recent copy of a set of addresses
 	gCopyPrev hash.HashSet // the one before it
@@ -325,7 +331,18 @@ func verif_x_arIdx_getSuffix(r archiveIndexReader, idx uint32) (x suffix) { retu
 func verif_x_arIdx_searchPrefix(r archiveIndexReader, prefix uint64) (i int32) {
 	return r.searchPrefix(prefix)
 }
-func verif_x_hashset_Copy(hs hash.HashSet) (c hash.HashSet)  { return hs.Copy() }
+func verif_x_hashset_Copy(hs hash.HashSet) (c hash.HashSet) { return hs.Copy() }
+
+// verif_mmPfx: the prefix the memory-mapped archive index holds for entry k (uninterpreted; the mapping is read-only).
+func verif_mmPfx(m *mmapIndexReader, k uint32) uint64 { return m.getPrefix(k) }
+
+// verif_jhas: the chunk journal holds a record for the address (uninterpreted function of the writer and the address).
+func verif_jhas(wr *journalWriter, h hash.Hash) bool { return wr.hasAddr(h) }
+
+// verif_arHas: the archive's index holds the address (what archiveReader.has answers; has is findIndex(h) >= 0, and
+// findIndex is under contract).
+func verif_arHas(ar *archiveReader, h hash.Hash) bool { return ar.has(h) }
+
 func verif_x_tableIndex_chunkCount(ti tableIndex) (n uint32) { return ti.chunkCount() }
 
 // verif_idxCount / verif_idxSfx: what a table index answers, as (uninterpreted) functions of the index and the
